@@ -13,6 +13,8 @@ import (
 	"sync"
 	"sync/atomic"
 	"time"
+
+	"github.com/pion/ice/v4/internal/verifhook"
 )
 
 type muxedPacketConn interface {
@@ -99,6 +101,7 @@ func (s *sharedPacketConn) ReadFrom(b []byte) (int, net.Addr, error) {
 		defer cancel()
 	}
 
+	verifhook.Yield("sharedconn.ReadFrom.afterCtxCheck")
 	n, addr, err := s.underlying.readFromContext(ctx, b)
 
 	return n, addr, mapContextError(err)
@@ -108,6 +111,8 @@ func (s *sharedPacketConn) WriteTo(b []byte, addr net.Addr) (int, error) {
 	if s.ctx.Err() != nil {
 		return 0, io.ErrClosedPipe
 	}
+
+	verifhook.Yield("sharedconn.WriteTo.afterCtxCheck")
 
 	return s.underlying.WriteTo(b, addr)
 }
@@ -154,6 +159,7 @@ func (s *sharedPacketConn) abortWrite() error {
 func (s *sharedPacketConn) Close() error {
 	var err error
 	fired := false
+	verifhook.Yield("sharedconn.Close.entry")
 	s.closeOnce.Do(func() {
 		fired = true
 		s.cancel()
@@ -190,6 +196,7 @@ func (s *sharedAddrPortConn) ReadFromAddrPort(b []byte) (int, netip.AddrPort, er
 		defer cancel()
 	}
 
+	verifhook.Yield("sharedconn.ReadFrom.afterCtxCheck")
 	n, addr, err := s.underlyingAddrPort.readFromAddrPortContext(ctx, b)
 
 	return n, addr, mapContextError(err)
@@ -199,6 +206,8 @@ func (s *sharedAddrPortConn) WriteToAddrPort(b []byte, addr netip.AddrPort) (int
 	if s.ctx.Err() != nil {
 		return 0, io.ErrClosedPipe
 	}
+
+	verifhook.Yield("sharedconn.WriteTo.afterCtxCheck")
 
 	return s.underlyingAddrPort.WriteToAddrPort(b, addr)
 }
